@@ -95,7 +95,7 @@ Section L.
   Qed.
 
   (* what one tightening produces, by prior family (GaussianPrior.with_limits and LogUniformPrior.with_limits are
-     classmethods that ignore the old prior; a LogGaussianPrior cannot be tightened) *)
+     classmethods that ignore the old prior; uniform and log-gaussian priors are intersected with their old range) *)
   Lemma derive_limits_shape (q : nat) (l : V * V) (s : spec V) :
     DL q l = Ok s ->
     exists old, lookup_nat q specs = Some old /\ s_fam V s = s_fam V old /\ s_wm V s = None /\
@@ -105,7 +105,7 @@ Section L.
       | FGaussian => s_mean V s = gl_mean (fst l) (snd l) /\ s_sigma V s = gl_sigma (fst l) (snd l) /\
                      neg_sigma (s_sigma V s) = false /\ s_lo V s = ninf /\ s_hi V s = pinf
       | FLogUniform => s_lo V s = lu_lo (fst l) /\ s_hi V s = lu_hi (snd l)
-      | FLogGaussian => False
+      | FLogGaussian => s_lo V s = pl_lo (fst l) (s_lo V old) /\ s_hi V s = pl_hi (snd l) (s_hi V old)
       end.
   Proof.
     unfold derive_limits. destruct (lookup_nat q specs) as [old|]; [|discriminate]. intro E. exists old.
@@ -116,7 +116,8 @@ Section L.
       destruct (bad_limits ninf pinf) eqn:B; [discriminate|]. inversion E; subst. simpl. auto 10.
     - destruct (lu_bad (lu_lo (fst l))); [discriminate|].
       destruct (bad_limits (lu_lo (fst l)) (lu_hi (snd l))) eqn:B; [discriminate|]. inversion E; subst. simpl. auto.
-    - discriminate.
+    - destruct (bad_limits (pl_lo (fst l) (s_lo V old)) (pl_hi (snd l) (s_hi V old))) eqn:B; [discriminate|].
+      inversion E; subst. simpl. auto.
   Qed.
 
   (* ---------- replacing: each parameter of the new model carries the prior the map gives for it, an
